@@ -229,6 +229,8 @@ def execute(history):
         M = zoo.build_exact(recipe)
         zoo.randomise_parameters(M, recipe["init_seed"])
         y = M.train_targets
+        # one long-lived objective object per history, as users create it (state kept on it must not leak between calls)
+        MLL = gpytorch.mlls.ExactMarginalLogLikelihood(M.likelihood, M)
         sketch = []
         policies_since_reset = []
         compared_with_nan = False
@@ -262,7 +264,7 @@ def execute(history):
                 M.likelihood.train()
                 policies_since_reset = []
                 opt = torch.optim.Adam(M.parameters(), lr=op["lr"])
-                mll = gpytorch.mlls.ExactMarginalLogLikelihood(M.likelihood, M)
+                mll = MLL
                 with gpytorch.settings.observation_nan_policy("mask"):
                     for _ in range(op["k"]):
                         opt.zero_grad()
@@ -377,7 +379,7 @@ def execute(history):
                                 out.violate("policy_changes_nan_free_result", i, "%s under policy %s on NaN-free targets differs from policy ignore by %.3g" % (bad[0][0], policy, bad[0][1]), quantity=bad[0][0], **cls)
             elif k in ("mll", "elp", "log_marginal"):
                 policy = op["policy"]
-                res = objective(out, i, M, recipe, y, k, policy)
+                res = objective(out, i, M, recipe, y, k, policy, MLL)
                 tag = "%s[%s,%s]" % (k, policy, nan_class(y))
                 if res and nans:
                     compared_with_nan = True
@@ -417,7 +419,7 @@ def oracle_guard(out, M, recipe, y, xs, ref, tol=TOL):
     return True
 
 
-def objective(out, i, M, recipe, y, kind, policy):
+def objective(out, i, M, recipe, y, kind, policy, MLL=None):
     fam = recipe["family"]
     T = recipe.get("tasks") if fam == "multitask" else None
     nans = int(torch.isnan(y).sum())
@@ -431,7 +433,7 @@ def objective(out, i, M, recipe, y, kind, policy):
             with torch.no_grad(), gpytorch.settings.observation_nan_policy(policy):
                 prior = M(*M.train_inputs)
                 if kind == "mll":
-                    val = gpytorch.mlls.ExactMarginalLogLikelihood(M.likelihood, M)(prior, y)
+                    val = (MLL if MLL is not None else gpytorch.mlls.ExactMarginalLogLikelihood(M.likelihood, M))(prior, y)
                 elif kind == "elp":
                     val = M.likelihood.expected_log_prob(y, prior)
                 else:
@@ -478,9 +480,12 @@ def objective(out, i, M, recipe, y, kind, policy):
     if kind == "mll":
         # the model zoo registers no priors and no added loss terms, so the MLL is log N(y_o) / N and the deletion
         # answer is log N(y_o) / |o|: "rescaled by the count of observed values"
-        got = val.reshape(-1) * N
         want = torch.stack([lp for lp, _ in refs]).reshape(-1)
-        ok, diff, scale = compare.tensor_diff(got, want)
+        counts = torch.tensor([float(c) for _, c in refs], dtype=want.dtype)
+        ok, diff, scale = compare.tensor_diff(val.reshape(-1) * N, want)
+        if not ok or not diff <= TOL * scale:
+            # "rescaled by the count of observed values": a normalisation by |o| instead of N is the same statement
+            ok, diff, scale = compare.tensor_diff(val.reshape(-1) * counts, want)
         if not ok or not diff <= TOL * scale:
             out.violate("objective_vs_deletion", i, "N * masked MLL differs from log N(y_observed) by %.3g (scale %.3g) with %d NaN targets" % (diff, scale, nans), **cls)
         else:
